@@ -209,6 +209,17 @@ func (b *shapeBuilder) build(s *shape) AV {
 	case "labeled":
 		return b.node("LabeledStmt", map[string]AV{"Label": b.node("Ident", map[string]AV{"Name": mkString("L")}).(Dyn).V, "Stmt": b.build(s.Kids[0])})
 	}
+	if strings.HasPrefix(s.K, "simple:") {
+		// statements without control flow of their own (a declaration, a send, i++, an assignment, go f(), a
+		// native range loop): never terminating, never a break — but the checker must have an answer for them
+		kind := strings.TrimPrefix(s.K, "simple:")
+		f := map[string]AV{}
+		if kind == "RangeStmt" {
+			f["Body"] = b.blockPtr(&shape{K: "block", Kids: []*shape{{K: "expr"}}})
+			f["Key"], f["Value"], f["X"] = Nil{}, Nil{}, b.node("Ident", map[string]AV{"Name": mkString("xs")})
+		}
+		return b.node(kind, f)
+	}
 	panic("unknown shape " + s.K)
 }
 
@@ -270,6 +281,19 @@ func termShapes() []*shape {
 				&shape{K: "select", Kids: []*shape{{K: "block", Kids: []*shape{ch, ret}}}},
 			)
 		}
+	}
+	// every other statement kind a generator body may contain, in the positions the checker looks at
+	for _, kind := range []string{"DeclStmt", "SendStmt", "IncDecStmt", "AssignStmt", "GoStmt", "RangeStmt"} {
+		x := &shape{K: "simple:" + kind}
+		all = append(all,
+			x,
+			&shape{K: "block", Kids: []*shape{ex, x}},
+			&shape{K: "if", Kids: []*shape{x, ret}},
+			&shape{K: "for", Kids: []*shape{x}},
+			&shape{K: "for", Kids: []*shape{{K: "block", Kids: []*shape{x, ex}}}},
+			&shape{K: "switch", Default: true, Kids: []*shape{x, ret}},
+			&shape{K: "select", Kids: []*shape{x}},
+		)
 	}
 	if termDeep {
 		// level 3: wrap every level-2 shape once more in each composite that affects termination
